@@ -15,6 +15,6 @@ m=json.load(open('$d/meta.json'))
 want=['C10','C11','C12','C18','C20','C07','C01','C14','C19']
 print(' '.join(c for c in want if c in m['checks'] or c in ('C07','C10','C20')))")
   echo "=== $id ($checks)"
-  VERIF_SEED_WORK=/tmp/vsw3 tools/try_seed.sh "$d/patch.diff" quick $checks
+  VERIF_SEED_WORK=/tmp/vsw3 tools/try_seed.sh "$PWD/$d/patch.diff" quick $checks
 done
 rm -rf /tmp/vsw3
